@@ -79,6 +79,57 @@ def racing_mounts(v, quick, rnd):
     return dict(racing_space=space, racing_executed=len(cases), racing_fired=fired)
 
 
+CBASE = {"self": 0x091D5E1F, "thread-self": 0x3EAD5E1F, "root": 0x5001FFFF}
+THREAD_CASES = [("self", "status", "open", O["RDONLY"], "/{pid}/status"), ("thread-self", "status", "open", O["RDONLY"], "/{pid}/task/{tid}/status"),
+                ("thread-self", "comm", "open", O["RDONLY"], "/{pid}/task/{tid}/comm"), ("self", "task", "open", O["RDONLY"] | O["DIRECTORY"], "/{pid}/task"),
+                ("thread-self", "attr/current", "open", O["PATH"], "/{pid}/task/{tid}/attr/current"), ("self", "attr/current", "open", O["PATH"], "/{pid}/attr/current"),
+                ("root", "thread-self", "readlink", 0, "{pid}/task/{tid}"), ("root", "self", "readlink", 0, "{pid}"),
+                ("root", "thread-self", "open_follow", O["PATH"] | O["DIRECTORY"], "/{pid}/task/{tid}"), ("root", "self", "open_follow", O["PATH"], "/{pid}"),
+                ("root", "thread-self/status", "open", O["RDONLY"], "/{pid}/task/{tid}/status"), ("root", "self/status", "open", O["RDONLY"], "/{pid}/status")]
+
+
+def thread_callers(v):
+    """'the real procfs object for the requested path' when the caller is not the thread-group leader: self is the process,
+    thread-self the calling thread (the handle of the Rust API is created by the leader and used by the thread)"""
+    from checks import scenarios
+    cases = []
+    for base, path, what, fl, want in THREAD_CASES:
+        for api in ("rust", "c"):
+            if api == "c" and what == "open_follow":
+                continue
+            for fname, feat in scenarios.FEATS:
+                cfl = fl | (O["NOFOLLOW"] if api == "c" and what == "open" else 0)       # the C function follows unless told otherwise
+                cases.append(dict(id="thr|%s|%s|%s|%s|%s" % (base, path, what, api, fname), tree=[], feat=feat, trace=False, cold=True,
+                                  calls=[dict(op="proc_in_thread", base=base, cbase=CBASE[base], path=path, what=what, oflags=cfl, api=api)], meta=dict(base=base, path=path, what=what, api=api, feat=fname, want=want)))
+    res = run_pv(cases, jobs=8, tag="C06t")
+    n = 0
+    for c, r in zip(cases, res):
+        m = c["meta"]
+        rs = (r.get("out") or [{}])[0].get("results") or []
+        if r.get("status") != "ok" or not rs:
+            v.violation(dict(check="procfs-thread", what="abnormal", case=c["id"]), "C06: abnormal termination: %s %s" % (r.get("status"), c["id"]), c)
+            continue
+        x = rs[0]
+        n += 1
+        desc = "%s(%s, %r) called by a thread that is not the thread-group leader [%s API, %s]" % (m["what"], m["base"], m["path"], m["api"], m["feat"])
+        if not x.get("tid") or x.get("tid") == x.get("pid"):
+            raise ToolError("thread case did not run in a secondary thread: %s" % json.dumps(x)[:200])
+        want = m["want"].replace("{pid}", str(x["pid"])).replace("{tid}", str(x["tid"]))
+        got = lib_outcome(x)
+        if got[0] not in ("ok", "body"):
+            v.violation(dict(check="procfs-thread", what="failed", base=m["base"], path=m["path"], op=m["what"], api=m["api"], feat=m["feat"]), "C06: %s failed with %s" % (desc, got), c)
+        elif m["what"] == "readlink":
+            if x.get("body") != want:
+                v.violation(dict(check="procfs-thread", what="wrong body", base=m["base"], path=m["path"], api=m["api"], feat=m["feat"]), "C06: %s returned %r; for the calling thread (pid %s, tid %s) the link reads %r" % (desc, x.get("body"), x["pid"], x["tid"], want), c)
+        else:
+            if x.get("fstype") != pc.PROC_MAGIC:
+                v.violation(dict(check="procfs-thread", what="not procfs", base=m["base"], path=m["path"], api=m["api"], feat=m["feat"]), "C06: %s returned an object that is not on procfs" % desc, c)
+            elif x.get("fdpath") not in (want, "/proc" + want):
+                v.violation(dict(check="procfs-thread", what="another procfs object", base=m["base"], path=m["path"], op=m["what"], api=m["api"], feat=m["feat"]),
+                            "C06: %s returned %s; the requested path names %s (pid %s, calling thread %s)" % (desc, x.get("fdpath"), want, x["pid"], x["tid"]), c)
+    return n
+
+
 def main(tier_):
     t0 = time.time()
     quick = tier_ == "quick"
@@ -177,6 +228,7 @@ def main(tier_):
                 samples.append(dict(case=desc, result="EXDEV"))
     # ---- one racing mount, placed before every procfs-relative syscall of a non-following open
     race_stats = racing_mounts(v, quick, rnd)
+    n_thread = thread_callers(v)
     if pending_private:
         twins = [dict(c, id=c["id"] + "-nomounts", mounts=[]) for c, g, got, desc in pending_private]
         tres = run_pv(twins, jobs=4, tag="proc2")
@@ -195,6 +247,6 @@ def main(tier_):
                rule="case = (over-mount set of <= %d mounts over 10 mountable nodes x kinds, handle kind, resolver, base, path, op) generated by TLC; non-trivial = at least one over-mount is present" % (1 if quick else 2),
                exhaustive=not quick, generated=total, racing_step_model=dict(states=pw["distinct"], complete=pw["complete"], violated=pw["violated"], variants=pw_variants), classic_mnt_id_cases=len(old_k), statx_masks_rewritten=n_cleared, design_complete=design["complete"], design_violated=design["violated"], mechanism_removal_variants=variants,
                mount_failed=stats["mount_failed"], handle_failed=stats["handle_failed"], outcomes={k: n for k, n in stats.items() if k.startswith(("ok", "err_"))},
-               racing_mounts=race_stats, model_ok_real_err=stats["model_ok_real_err"], exdev_other_errno=stats["exdev_other_errno"], notes=v.notes[:12], build_s=round(build_s, 1))
+               racing_mounts=race_stats, thread_caller_cases=n_thread, model_ok_real_err=stats["model_ok_real_err"], exdev_other_errno=stats["exdev_other_errno"], notes=v.notes[:12], build_s=round(build_s, 1))
     write_evidence("C06", tier_, "model_checking", cov, ASSUME, time.time() - t0, len(v.violations))
     return rc
